@@ -7,7 +7,7 @@ OUT=${1:-/verif/.work/seed_regression.log}; : > $OUT
 for d in seeded/*/; do
   s=$(basename $d); p=${s%%-*}
   if ! git -C /repo diff --quiet; then echo "repo dirty" >> $OUT; exit 2; fi
-  git -C /repo apply $d/patch.diff || { echo "$s APPLY-FAIL" >> $OUT; continue; }
+  git -C /repo apply /verif/$d/patch.diff || { echo "$s APPLY-FAIL" >> $OUT; continue; }
   r=$(./check $p 2>&1); rc=$?
   git -C /repo checkout -- .
   first=$(echo "$r" | grep -E "^(VIOLATION|INCONCLUSIVE|OK)" | head -1 | cut -c1-160)
